@@ -4,7 +4,8 @@
 def setup(register, COMMON_TB):
     register(
         "C07", coq="C07", coq_extra=["k8s"], pkg="./internal/mode/static/", test="TestVerifC07",
-        extra=[dict(pkg="./internal/mode/static/status/", test="TestVerifC07Prep")],
+        extra=[dict(pkg="./internal/mode/static/status/", test="TestVerifC07Prep"),
+               dict(pkg="./internal/mode/static/", test="TestVerifC07Pol")],
         rule="generated cluster states (as C02) run through the real handler with a successful or failing (file write / reload) apply; the statuses "
              "written by the real setters are read back from the objects and compared inside Coq with the declarative attachment relation: Accepted "
              "per parentRef iff served, ResolvedRefs False iff a processed rule has an invalid backend, exactly one entry per parentRef with the "
@@ -18,7 +19,7 @@ def setup(register, COMMON_TB):
              "reload every Route parent is Accepted=False/GatewayNotProgrammed and a valid Gateway and each listener Programmed=False/Invalid; a failed attachment's "
              "condition is the only one of its type; no type twice per entry; Gateway Accepted reflects the number of valid listeners; attachedRoutes = L7 + L4 "
              "routes; ignored Gateways carry GatewayConflict; per-type precedence reload > failed attachment > last own condition > default; the constructors "
-             "return the (type, status, reason) the model assumes. Non-trivial there = at least 2 parentRefs and 2 Route conditions, or at least 2 listeners",
+             "return the (type, status, reason) the model assumes. Non-trivial there = at least 2 parentRefs and 2 Route conditions, or at least 2 listeners Third part (TestVerifC07Pol, evaluated by C07/PolStatus.v): generated states with the NGF policy layer (ClientSettings-, Observability-, UpstreamSettingsPolicies on Gateways, Routes, Services; BackendTLSPolicies) plus directed policies (on the Gateway, on two Routes, two on one Route, on a missing Route, in another namespace, generations 1-4, 1-15 entries of another controller already present), half of them reconciled twice; the ancestor statuses read back must satisfy R1-R5 of C07/PolStatus.v (one entry per ancestor, exactly one Accepted condition with the current generation, every target of this controller has an entry, at most 16 entries and foreign ones kept, no entry without a target)",
         trusted_base=COMMON_TB + [
             "k8s/Spec.v: declarative attachment/validity relation used as the truth about what is programmed (the same relation the C02 check validates "
             "against the generated NGINX configuration)",
